@@ -1043,3 +1043,96 @@ example : Ready {} { hasProceed := true } := ⟨⟨rfl, rfl, rfl, rfl, rfl, rfl,
 example : (clientRead ⟨id, id⟩ {} 0x42 1 0x92000003 2 2 true false (srvDm16 [0x34, 0x12, 0xFF, 0xFF])).2.2 = .values [0x1234, -1] := by decide
 
 end J1939.Props.C17
+
+/-! ## whole transaction with seed/key -/
+namespace J1939.Props.C17
+open J1939 J1939.Gen J1939.Dm14
+
+/-- the client's side of a read with seed/key: as `clientRead`, with the seed DM15 answered in between -/
+def clientReadSK (env : Env) (c0 : Node) (sv direct address count osize : Nat) (signed raw : Bool) (seed : Nat) (dm16 : List Nat) :
+    Node × List Out × Ret :=
+  let r1 := Dm14.read c0 sv direct address count osize signed raw
+  let r1b := deliver env r1.1 0 true ⟨PGN_DM15, sv, seedDm15 direct seed⟩
+  let r2 := deliver env r1b.n 0 true ⟨PGN_DM15, sv, proceedDm15 direct count⟩
+  let r3 := deliver env r2.n 0 true ⟨PGN_DM16, sv, dm16⟩
+  let r4 := deliver env r3.n 0 true ⟨PGN_DM15, sv, opcDm15 direct⟩
+  let r5 := clientResume r4.n false
+  (r5.1, r1.2.1 ++ r1b.outs ++ r2.outs ++ r3.outs ++ r4.outs, r5.2)
+
+theorem client_read_sk (env : Env) (c0 : Node) (hcl : Clean c0) (hck : c0.q.hasKey = true) (sv direct address count osize : Nat)
+    (signed raw : Bool) (seed : Nat) (dm16 d : List Nat)
+    (hc : count ≠ 0) (ha : address < 2 ^ 32) (hd : direct < 16) (hs : seed < 2 ^ 16) (h16 : 1 ≤ dm16.length)
+    (hpay : Py.slice dm16 1 (min (Py.idx dm16 0) (dm16.length - 1) + 1) = d) :
+    (clientReadSK env c0 sv direct address count osize signed raw seed dm16).2.1 =
+      [.tx PGN_DM14 (sv &&& 0xFF) 6 (openDm14 count direct CMD_READ address c0.q.userLevel),
+       .tx PGN_DM14 (sv &&& 0xFF) 6 (openDm14 count direct CMD_READ address (env.ckey seed)),
+       .tx PGN_DM14 (sv &&& 0xFF) 6 (closeDm14 direct address)] ∧
+    (clientReadSK env c0 sv direct address count osize signed raw seed dm16).2.2 = readResult osize signed raw d ∧
+    Clean (clientReadSK env c0 sv direct address count osize signed raw seed dm16).1 := by
+  have hb := client_read_begin c0 hcl sv direct address count osize signed raw hc ha
+  have hseedstep := client_answers_seed env (cWaitSeed c0 sv direct address count osize signed raw) sv direct seed hd hs rfl rfl rfl
+    (by show count ≠ 0; exact hc) (by show c0.q.hasKey = true; exact hck)
+  obtain ⟨c1, c2, c3, _⟩ := client_read env c0 hcl sv direct address count osize signed raw dm16 d hc ha hd h16 hpay
+  unfold clientReadSK
+  unfold clientRead at c1 c2 c3
+  rw [hb] at c1 c2 c3 ⊢
+  dsimp only at c1 c2 c3 ⊢
+  rw [hseedstep]
+  dsimp only
+  refine ⟨?_, c2, c3⟩
+  simp only [List.cons_append, List.nil_append] at c1 ⊢
+  have : (deliver env (cWaitSeed c0 sv direct address count osize signed raw) 0 true ⟨PGN_DM15, sv, proceedDm15 direct count⟩).outs ++
+      ((deliver env (deliver env (cWaitSeed c0 sv direct address count osize signed raw) 0 true ⟨PGN_DM15, sv, proceedDm15 direct count⟩).n 0 true ⟨PGN_DM16, sv, dm16⟩).outs ++
+       (deliver env (deliver env (deliver env (cWaitSeed c0 sv direct address count osize signed raw) 0 true ⟨PGN_DM15, sv, proceedDm15 direct count⟩).n 0 true ⟨PGN_DM16, sv, dm16⟩).n 0 true ⟨PGN_DM15, sv, opcDm15 direct⟩).outs)
+      = [.tx PGN_DM14 (sv &&& 0xFF) 6 (closeDm14 direct address)] := by
+    have := c1
+    simp only [List.cons.injEq, true_and] at this
+    simpa [List.append_assoc] using this
+  simp only [List.append_assoc] at this ⊢
+  rw [this]
+  simp [qDm14, cWaitSeed, openDm14, CMD_READ]
+
+/-- C17, READ of 1..7 bytes WITH seed/key, the whole transaction (any seed, key functions that agree on it): the
+    handshake of `c17_seedkey_handshake`, then exactly the run of `c17_read_short`; the application is consulted once,
+    after the right key, with key and seed; the client's call returns exactly the served bytes; both nodes are clean -/
+theorem c17_read_short_seedkey (env : Env) (c0 s0 : Node) (hc0 : Clean c0) (hs0 : Clean s0) (hsec : s0.seedSecurity = true)
+    (hk : s0.s.hasKey = true) (hp : s0.hasProceed = true) (hck : c0.q.hasKey = true)
+    (cl sv direct address count osize seed sd2 sd3 e x : Nat) (signed raw : Bool) (d : List Nat)
+    (hcount : count ≠ 0) (ha : address < 2 ^ 32) (hd : direct < 16) (hlv : c0.q.userLevel < 2 ^ 16) (hseed : seed < 2 ^ 16)
+    (hkeys : env.ckey seed = env.skey seed) (hk16 : env.skey seed < 2 ^ 16) (hd7 : d.length ≤ 7) :
+    let rs1 := deliver env s0 seed true ⟨PGN_DM14, cl, openDm14 count direct CMD_READ address c0.q.userLevel⟩
+    let rs2 := deliver env rs1.n sd2 true ⟨PGN_DM14, cl, openDm14 count direct CMD_READ address (env.skey seed)⟩
+    let rp := respond rs2.n sd3 true d e x
+    let rc := clientReadSK env c0 sv direct address count osize signed raw seed (srvDm16 d)
+    let rz := deliver env rp.1 sd2 true ⟨PGN_DM14, cl, closeDm14 direct address⟩
+    rs1.outs = [.tx PGN_DM15 (cl &&& 0xFF) 6 (seedDm15 direct seed)] ∧
+    rs2.outs = [.proceed CMD_READ address (direct % 2) 8 count (env.skey seed) cl c0.q.userLevel seed, .notify] ∧
+    rp.2 = ([.tx PGN_DM15 (cl &&& 0xFF) 6 (proceedDm15 direct count), .tx PGN_DM16 (cl &&& 0xFF) 7 (srvDm16 d),
+             .tx PGN_DM15 (cl &&& 0xFF) 6 (opcDm15 direct)], .none) ∧
+    rc.2.1 = [.tx PGN_DM14 (sv &&& 0xFF) 6 (openDm14 count direct CMD_READ address c0.q.userLevel),
+              .tx PGN_DM14 (sv &&& 0xFF) 6 (openDm14 count direct CMD_READ address (env.skey seed)),
+              .tx PGN_DM14 (sv &&& 0xFF) 6 (closeDm14 direct address)] ∧
+    rc.2.2 = readResult osize signed raw d ∧ Clean rc.1 ∧
+    rz.outs = [] ∧ rz.err = none ∧ Clean rz.n := by
+  intro rs1 rs2 rp rc rz
+  have hS := server_sends_seed env s0 hs0 hsec hk seed cl count direct CMD_READ address c0.q.userLevel (by decide) hd hlv
+  have hrs1 : rs1 = _ := hS
+  obtain ⟨k1, k2, k3, k4, k5, k6⟩ := server_accepts_key env rs1.n cl count direct CMD_READ address (env.skey seed) sd2 (by decide) hd hk16 ha
+    (by rw [hrs1]) (by rw [hrs1]; exact hs0.subs) (by rw [hrs1]; exact hsec) (by rw [hrs1]; exact hp) (by rw [hrs1]) (by rw [hrs1])
+    (by rw [hrs1]) (by rw [hrs1]; exact hs0.busy) (by rw [hrs1]) (by rw [hrs1]; exact hs0.sd) (by rw [hrs1])
+  obtain ⟨p1, p2, p3, p4, p5, p6, p7, p8, p9, p10, p11⟩ := server_read_short rs2.n cl count direct sd3 k3 d hd7 e x
+  obtain ⟨c1, c2, c3⟩ := client_read_sk env c0 hc0 hck sv direct address count osize signed raw seed (srvDm16 d) d hcount ha hd hseed
+    (by simp [srvDm16]) (srvDm16_payload d (by omega))
+  have hclosing : Closing rp.1 cl := ⟨p2, Or.inl p3, p4, p5, p6, p7, p8⟩
+  have haddr : ∀ ad, rp.1.s.address = some ad → ad = Py.slice (closeDm14 direct address) 2 6 := by
+    intro ad h
+    rw [p10, k5] at h
+    simp only [Option.some.injEq] at h
+    rw [← h, closeDm14, open_slice]
+  obtain ⟨z1, z2, z3, z4, z5, z6, z7, z8, z9, z10, z11⟩ := server_closing env rp.1 cl sd2 true (closeDm14 direct address) hclosing
+    (by simp [closeDm14, openDm14, toBytesLE_length]) haddr
+  refine ⟨by rw [hrs1], by rw [k1, hrs1], p1, by rw [c1, hkeys], c2, c3, z1, z2, ?_⟩
+  exact clean_of _ z3 (by rw [z11, p9, k4, hrs1]; exact hs0.q) z4 z5 (by rw [z11, p9, k4, hrs1]; exact hs0.qd)
+    (by rw [z11, p9, k4, hrs1]; exact hs0.qe) z8 z6 z7 z9 z10
+
+end J1939.Props.C17
